@@ -118,8 +118,17 @@ static void gen_addr(Node *node) {
 
     // Thread-local variable
     if (node->var->is_tls) {
-      println("  mov %%fs:0, %%rax");
-      println("  add $%s@tpoff, %%rax", node->var->name);
+      // Local-exec is valid only if the variable ends up in the
+      // executable's own TLS block, which is certain only if this
+      // translation unit defines it. Otherwise the variable may live in
+      // a shared object, so load its offset from the GOT (initial-exec).
+      if (node->var->is_definition) {
+        println("  mov %%fs:0, %%rax");
+        println("  add $%s@tpoff, %%rax", node->var->name);
+      } else {
+        println("  mov %s@gottpoff(%%rip), %%rax", node->var->name);
+        println("  add %%fs:0, %%rax");
+      }
       return;
     }
 
